@@ -1268,6 +1268,17 @@ def c15(ctx):
     if not st["ok"]:
         raise Undecided("model checking of spec/Layout.tla failed:\n" + vlib.tlc_error_excerpt(out, 40))
     ctx.add_mc("Layout", st, "LayoutPreservesLex for every widen/close/recase edit of every corpus program")
+    # sensitivity: with the historical comment automaton the layout layer is NOT transparent (defects repaired in 68e4517, 2ed0496)
+    for sw in ("BlockEndLosesParen", "EmptyCommentSwallowsLine"):
+        ds = ctx.scratch.sub("layout_" + sw)
+        with open(os.path.join(ds, "corpus.ndjson"), "w") as f:
+            f.write(json.dumps({"id": 1, "src": list(b"find all 'a' = v")}) + "\n")
+        outs, sts = vlib.run_tlc(ds, "Layout", "SPECIFICATION Spec\nCONSTANT CorpusFile = \"corpus.ndjson\"\nCONSTANT LexDev = {\"%s\"}\n"
+                                 "INVARIANT LayoutPreservesLex\nCHECK_DEADLOCK FALSE\n" % sw, workers=1, timeout=300, heap="2g")
+        ok = "Invariant LayoutPreservesLex is violated" in outs
+        ctx.sensitivity.append({"switch": [sw], "expected_violation": "LayoutPreservesLex", "tlc_reported": "LayoutPreservesLex" if ok else None, "ok": ok})
+        if not ok:
+            raise Undecided("sensitivity run of Layout.tla with %s did not violate LayoutPreservesLex" % sw)
     docs = vlib.tlc_json_lines(out)
     ip, rp = os.path.join(d, "variants.ndjson"), os.path.join(d, "report.json")
     with open(ip, "w") as f:
